@@ -44,8 +44,8 @@ theorem send_ack_same_key (m : Msg) : (produce m false).1 = (produce m true).1 :
 key does not change what a receiver that is still catching up ends up holding for any key -/
 theorem compaction_safe (h1 h2 : List Wire) (w : Wire) (k : Bytes)
     (hs : ∃ w' ∈ h2, ukey w'.msg = ukey w.msg) :
-    C10.lastWith k (h1 ++ w :: h2) = C10.lastWith k (h1 ++ h2) := by
-  unfold C10.lastWith
+    lastWith k (h1 ++ w :: h2) = lastWith k (h1 ++ h2) := by
+  unfold lastWith
   simp only [List.reverse_append, List.reverse_cons, List.append_assoc, List.find?_append]
   cases hf : h2.reverse.find? (fun w => ukey w.msg = k) with
   | some x => simp
